@@ -104,9 +104,20 @@ def rule_count_band(mode, cutoff, allv):
     return lo, hi
 
 
+DOCUMENTED_DEFAULTS = {"cutoff": -1.0, "cutoff_mode": 4, "max_bond": -1,
+                       "absorb": 0, "renorm": 0}
+
+
 def run_truncated(x, via, **kw):
     import autoray as ar
     import symmray as sr
+
+    # an argument equal to its documented default is left out, so that the
+    # defaults themselves are exercised
+    kw = {k: v for k, v in kw.items()
+          if not (k in DOCUMENTED_DEFAULTS and v is not None
+                  and type(v) is type(DOCUMENTED_DEFAULTS[k])
+                  and v == DOCUMENTED_DEFAULTS[k])}
 
     if via == "ar":
         return must(ar.do, "svd_truncated", x, what="svd_truncated", **kw)
